@@ -1,3 +1,4 @@
+\* quick record-level profile
 CONSTANTS
   Mode = "rec"
   Dollars = {}
